@@ -288,9 +288,19 @@ func TaxDump(r *rand.Rand, t *ref.TaxTree, shuffle, synonyms bool) (nodes, names
 		r.Shuffle(n, func(i, j int) { order[i], order[j] = order[j], order[i] })
 	}
 	var nb, mb, ab strings.Builder
-	for _, i := range order {
+	// the last column of nodes.dmp is free text; in one dump out of five one line carries a comment
+	// longer than 64 KiB (the default limit of a line scanner), the nodes after it must still be read
+	long := -1
+	if r.Intn(5) == 0 {
+		long = r.Intn(n)
+	}
+	for k, i := range order {
+		comment := []string{"", "", "code compliant; specified", "uncultured"}[r.Intn(4)]
+		if k == long {
+			comment = strings.Repeat("curated comment; ", 4000+r.Intn(2000))
+		}
 		fmt.Fprintf(&nb, "%d\t|\t%d\t|\t%s\t|\t%s\t|\t%d\t|\t%d\t|\t%d\t|\t%d\t|\t%d\t|\t%d\t|\t%d\t|\t%d\t|\t%s\t|\n",
-			t.Taxid[i], t.Taxid[t.Parent[i]], t.Rank[i], emblCodes[r.Intn(len(emblCodes))], r.Intn(12), r.Intn(2), 1+r.Intn(11), r.Intn(2), r.Intn(5), r.Intn(2), r.Intn(2), r.Intn(2), "")
+			t.Taxid[i], t.Taxid[t.Parent[i]], t.Rank[i], emblCodes[r.Intn(len(emblCodes))], r.Intn(12), r.Intn(2), 1+r.Intn(11), r.Intn(2), r.Intn(5), r.Intn(2), r.Intn(2), r.Intn(2), comment)
 	}
 	type row struct {
 		id          int
